@@ -8,6 +8,7 @@ package main
 
 import (
 	"math/rand"
+	"time"
 
 	"verifharness/vh"
 )
@@ -25,6 +26,9 @@ func genFirstTouch(rnd *rand.Rand) (runCfg, [][]actT) {
 	lc := firstKinds[[]int{0, 0, 1, 1, 2, 3}[rnd.Intn(6)]]
 	lc.Shards = []int{1031, 1031, 4099, 4099, 4099, 65537, 257, 73}[rnd.Intn(8)]
 	slots := 22 + rnd.Intn(8)
+	if slots > lc.Shards/5 {
+		slots = lc.Shards / 5 // enough distinct never-used slots also on the small control primes
+	}
 	// slot s gets the keys s' and s' + p: same slot under modulo routing of ints (under xxhash just two more fresh keys)
 	used := map[int]bool{}
 	for len(lc.Seeds) < 2*slots {
@@ -98,13 +102,19 @@ func firstTouchChooser(rnd *rand.Rand, bursts [][]actT) chooser {
 
 func runFirstTouch(e *vh.Env, n int) (rounds, mismatches int) {
 	touches := 0
+	t0 := time.Now()
+	var tRun, tEmit time.Duration
 	for i := 0; i < n; i++ {
 		c, bursts := genFirstTouch(e.Rnd)
 		l := build(c.L)
+		t1 := time.Now()
 		rs, note := runSchedule(l, len(c.L.Seeds), firstTouchChooser(e.Rnd, bursts), e.Rnd.Intn)
+		t2 := time.Now()
 		if !emitRun(e, c, l, rs, note, classOf(c)) {
 			mismatches++
 		}
+		tRun += t2.Sub(t1)
+		tEmit += time.Since(t2)
 		rounds += len(rs)
 		touches += len(bursts)
 		if note != "" {
@@ -112,5 +122,6 @@ func runFirstTouch(e *vh.Env, n int) (rounds, mismatches int) {
 		}
 	}
 	e.Meta["first_touch_bursts"] = touches
+	e.Meta["first_touch_seconds"] = []float64{time.Since(t0).Seconds(), tRun.Seconds(), tEmit.Seconds()} // total, schedule, witness search + printing
 	return
 }
